@@ -86,7 +86,11 @@ impl<Key> AdmissionPolicy<Key>
             while let Ok(event) = receiver.recv() {
                 match event {
                     BufferEvent::Full(key_hashes) => {
+                        #[cfg(cached_verif)]
+                        let _verif_lock = crate::cache::verif::lock_scope("SketchLock");
                         { access_frequency.write().increment_access(key_hashes); }
+                        #[cfg(cached_verif)]
+                        drop(_verif_lock);
                     }
                     BufferEvent::Shutdown => {
                         info!("Received Shutdown event in AdmissionPolicy, shutting it down");
@@ -106,6 +110,8 @@ impl<Key> AdmissionPolicy<Key>
     }
 
     pub(crate) fn estimate(&self, key_hash: KeyHash) -> FrequencyEstimate {
+        #[cfg(cached_verif)]
+        let _verif_lock = crate::cache::verif::lock_scope("SketchLock");
         return self.access_frequency.read().estimate(key_hash);
     }
 
@@ -167,7 +173,12 @@ impl<Key> AdmissionPolicy<Key>
 
     pub(crate) fn clear(&self) {
         self.cache_weight.clear();
+        #[cfg(cached_verif)]
+        crate::cache::verif::lock_acquire("SketchLock");
         self.access_frequency.write().clear();
+        #[cfg(cached_verif)]
+        crate::cache::verif::lock_release("SketchLock");
+
         self.stats_counter.clear();
     }
 
